@@ -212,8 +212,10 @@ def oracleStep (toks : List String) (ans : String) : Verdict :=
     | some (law, false) =>
       (match tokens ans with
        | [l, r] => judge (.regs law l r) toks ["regs-" ++ law.name]
+       | ["err"] => Verdict.pass false ["law-refused"]     -- a Merge of different precisions was refused
        | _ => bad)
     | some (law, true) =>
+      if ans = "err" then Verdict.pass false ["law-refused"] else
       (match (tokens ans).map String.toNat? with
        | [some l, some r] => judge (.count law l r) toks ["count-" ++ law.name]
        | [some l, some r, some n] =>
